@@ -7,6 +7,7 @@ package main
 
 import (
 	"fmt"
+	"sort"
 	"strings"
 	"unicode/utf8"
 
@@ -30,7 +31,70 @@ func randStr(r *RNG, maxLen int) string {
 	return b.String()
 }
 
+// string-like FHIR elements of every kind as receivers (values fixed by the element type: enum
+// codes cannot carry arbitrary text)
+func c14ElementReceivers(c *Ctx) {
+	res := mustResource(`{"resourceType":"Patient","id":"pat-1","meta":{"profile":["http://example.org/fhir/StructureDefinition/p"],"source":"urn:src:é"},"text":{"status":"generated","div":"<div xmlns=\"http://www.w3.org/1999/xhtml\">x</div>"},"gender":"female","name":[{"use":"official","family":"Ünal","given":["Zoë"]}],"telecom":[{"system":"phone","value":"555","use":"mobile"}],"address":[{"use":"home","type":"postal","city":"Zürich"}],"link":[{"other":{"reference":"Patient/2"},"type":"seealso"}],"communication":[{"language":{"coding":[{"system":"urn:ietf:bcp:47","code":"de-CH"}]}}],"photo":[{"contentType":"image/png","url":"http://example.org/p.png"}]}`)
+	paths := map[string]string{
+		"Patient.gender": "female", "Patient.name.use": "official", "Patient.telecom.system": "phone", "Patient.telecom.use": "mobile", "Patient.address.use": "home", "Patient.address.type": "postal",
+		"Patient.link.type": "seealso", "Patient.text.status": "generated", "Patient.id": "pat-1", "Patient.meta.profile": "http://example.org/fhir/StructureDefinition/p", "Patient.meta.source": "urn:src:é",
+		"Patient.name.family": "Ünal", "Patient.name.given": "Zoë", "Patient.address.city": "Zürich", "Patient.communication.language.coding.code": "de-CH", "Patient.communication.language.coding.system": "urn:ietf:bcp:47",
+		"Patient.photo.contentType": "image/png", "Patient.photo.url": "http://example.org/p.png", "Patient.telecom.value": "555",
+	}
+	var keys []string
+	for k := range paths {
+		keys = append(keys, k)
+	}
+	sort.Strings(keys)
+	for _, p := range keys {
+		want := []rune(paths[p])
+		lit := func(rs []rune) string { return "'" + string(rs) + "'" }
+		checks := map[string]string{
+			p + ".length()":                                  fmt.Sprintf("ok:[I:%d]", len(want)),
+			p + ".toChars().count()":                         fmt.Sprintf("ok:[I:%d]", len(want)),
+			p + ".upper().lower() = " + lit([]rune(strings.ToLower(string(want)))): "ok:[B:true]",
+			p + ".substring(1).length()":                     fmt.Sprintf("ok:[I:%d]", len(want)-1),
+			p + ".substring(1, 2) = " + lit(want[1:3]):       "ok:[B:true]",
+			p + ".startsWith(" + lit(want[:2]) + ")":         "ok:[B:true]",
+			p + ".endsWith(" + lit(want[1:]) + ")":           "ok:[B:true]",
+			p + ".indexOf(" + lit(want[1:2]) + ")":           "",
+			p + ".contains(" + lit(want[2:3]) + ")":          "ok:[B:true]",
+			p + ".replace(" + lit(want) + ", 'x')":           "ok:[S:x78]",
+		}
+		var cks []string
+		for k := range checks {
+			cks = append(cks, k)
+		}
+		sort.Strings(cks)
+		for _, src := range cks {
+			o := compileEval(src, []fhir.Resource{res})
+			got := outTokens(o)
+			if o.Panicked {
+				got = "panic " + o.PanicMsg
+			} else if o.Err != nil {
+				got = "err " + o.Err.Error()
+			}
+			c.Observe("element-receiver "+src, true)
+			// indexOf counts characters: recompute for non-ASCII
+			want := checks[src]
+			if strings.Contains(src, ".indexOf(") {
+				rs := []rune(paths[p])
+				idx := -1
+				for i := range rs {
+					if rs[i] == rs[1] {
+						idx = i
+						break
+					}
+				}
+				want = fmt.Sprintf("ok:[I:%d]", idx)
+			}
+			c.Law(got == want, "C14/element-receiver", "string functions work on every string-like FHIR element (code, enum code, id, uri, canonical, url, markdown, string) as on its string value", src, got+" vs "+want)
+		}
+	}
+}
+
 func runC14(c *Ctx) {
+	c14ElementReceivers(c)
 	c.meta.Rule = "strings of 0..12 alphabet symbols (ASCII, 2-/3-/4-byte code points, combining mark, special-casing letters); substring over all start in [-2, len+2] x length in [-1, len+2] and int32 boundaries; patterns = every kind of substring, one-edit near-misses, empty; receivers as System String or FHIR string/code/markdown/uri elements; non-trivial = receiver contains a multi-byte character; distinct by operation line"
 	input := []fhir.Resource{mustResource(`{"resourceType":"Patient","id":"p"}`)}
 	cache := map[string]*fhirpath.Expression{}
@@ -140,6 +204,15 @@ func runC14(c *Ctx) {
 				}
 				o := eval("%s.substring(%a0, %a1)", r, system.Integer(int32(st)), system.Integer(int32(ln)))
 				c.Emit(fmt.Sprintf("ssub2 %s %d %d", hs, st, ln), outTokens(o), nt)
+				c.Law(!o.Panicked, "C14/panic", "string functions return a value, empty or an error", fmt.Sprintf("%q.substring(%d,%d)", s, st, ln), o.PanicMsg)
+				if st >= 0 && st < int64(L) && ln >= 0 && !o.Panicked {
+					end := st + ln
+					if end > int64(L) {
+						end = int64(L)
+					}
+					good := o.Err == nil && len(o.Coll) == 1 && o.Coll[0] == system.String(string(runes[st:end]))
+					c.Law(good, "C14/substring-characters", "positions and lengths count characters; a length beyond the end yields the rest", fmt.Sprintf("%q.substring(%d,%d)", s, st, ln), outTokens(o))
+				}
 				checkUTF8(o, fmt.Sprintf("%q.substring(%d,%d)", s, st, ln))
 			}
 		}
